@@ -739,11 +739,13 @@ pub fn c10_parts(quick: bool) -> (Vec<EwSpec>, Vec<Scenario>) {
     let mut scs: Vec<EwSpec> = Vec::new();
     let timeouts: &[u64] = if quick { &[1000, 3000, 20_000] } else { &[1000, 3000, 20_000] };
     let keepalives: &[Option<u64>] = &[None, Some(500), Some(2500), Some(5000)];
-    let cadences: &[u64] = if quick { &[7, 100, 1000] } else { &[1, 7, 100, 1000] };
+    let cadences: &[u64] = if quick { &[7, 100, 1000, 12_000] } else { &[1, 7, 100, 1000, 5000, 12_000] };
     for &t in timeouts {
         for &ka in keepalives {
             for &cad in cadences {
                 if cad == 1 && t > 3000 { continue; }
+                // application loops slower than a second are run against the default time-out only (slower than the time-out itself nothing can be asked)
+                if cad > 1000 && t != 20_000 { continue; }
                 if quick && cad == 7 && t == 20_000 { continue; }
                 let mk = |mut e: EndpointConfig| { e.active_timeout_ms = t; e.keepalive = ka.is_some(); e.keepalive_interval_ms = ka.unwrap_or(5000); e };
                 let mut cfg = EwCfg::new(1); cfg.server = mk(cfg.server.clone()); cfg.clients[0] = mk(cfg.clients[0].clone());
